@@ -546,6 +546,48 @@ def gen_threshold(rng):
 
 
 # ------------------------------------------------------------------------------------------------
+# band stream: requests built so that the exact argument of a math.ceil is (nearly) an integer / perfect
+# square; compared with the model, a divergence is admissible only inside the proven bands
+def gen_band(rng):
+    s = gen_system(rng)
+    o = make_opts(s)
+    G, S, R = float(o.max_grad), float(o.max_slew), float(o.grad_raster_time)
+    kind = rng.choice(['sqrt', 'sqrt_dur', 'amp_flat', 'amp_dur', 'plateau', 'flat_area'])
+    a = new_args()
+    case = {'kind': 'band.' + kind, 'sys': s, 'args': a, 'channel': rng.choice(['x', 'y', 'z']), 'threshold': False}
+    sgn = rng.choice([1, -1])
+    nudge = lambda x: x * (1 + rng.choice([0, 0, 1, -1, 2, -2]) * 2.0 ** -52)
+    if kind in ('sqrt', 'sqrt_dur'):
+        k = rng.randint(1, 80)
+        a['area'] = sgn * nudge(S * (k * R) ** 2)
+        if kind == 'sqrt_dur':
+            d_opt = cont_optimum(a['area'], S, G)
+            a['duration'] = tm((math.ceil(d_opt / R + 2 + 1e-6) + rng.randint(2, 50)) * R)
+    elif kind in ('amp_flat', 'amp_dur'):
+        kmax = max(1, int(G / (S * R)))
+        k = rng.randint(1, min(kmax, 200))
+        a['amplitude'] = sgn * nudge(S * k * R)
+        if abs(a['amplitude']) > G:
+            a['amplitude'] = sgn * G
+        if kind == 'amp_flat':
+            a['flat_time'] = tm(rng.randint(0, 300) * R)
+        else:
+            a['duration'] = tm((2 * (k + 1) + rng.randint(0, 300)) * R)
+    elif kind == 'plateau':
+        k = int(G / (S * R)) + rng.randint(3, 300)
+        a['area'] = sgn * nudge(G * (k * R))
+    else:
+        kmax = max(1, int(G / (S * R)))
+        k = rng.randint(1, min(kmax, 200))
+        ft = tm(rng.randint(1, 300) * R)
+        a['flat_time'] = ft
+        a['flat_area'] = sgn * nudge(S * k * R * ft)
+        if abs(a['flat_area']) / ft > G:
+            a['flat_area'] = sgn * G * ft * 0.5
+    return case
+
+
+# ------------------------------------------------------------------------------------------------
 # fixed corpus (run first): the calls of the repo's own tests, the reproducers of defects 14 and 18, and
 # thresholds whose binary64 arithmetic is exact (rise = 2 rasters), so the exact model decides identically
 def corpus():
@@ -759,6 +801,83 @@ def oracle(ctx, case, vals):
 
 
 # ------------------------------------------------------------------------------------------------
+# binary64 in front of math.ceil: the bands of Props/C11.v ceil_robust_band / ceil_sqrt_div_robust_band.
+# The model evaluates ceil(q) and ceil(sqrt(x)/r) exactly, the code on a computed value with a relative
+# error below DELTA (two or three correctly rounded operations: < 2^-51).  By the two theorems the integer
+# can differ (by exactly one) only if the exact argument lies in these bands; a one-raster divergence of
+# model and code is admissible exactly then.
+DELTA = Fraction(1, 2 ** 50)
+
+
+def _iceil(q):
+    return -((-q.numerator) // q.denominator)
+
+
+def band_plain(q):
+    """exact q >= 0 handed to math.ceil: (n = ceil(q), may the code obtain n+1 / n-1)"""
+    n = _iceil(q)
+    up = q <= n < q + DELTA * abs(q)
+    down = q - DELTA * abs(q) <= n - 1 < q
+    return n, (up or down)
+
+
+def band_sqrt(y):
+    """exact y = x / r^2 >= 0 whose square root is handed to math.ceil"""
+    c = _iceil(y)
+    n = math.isqrt(c)
+    if n * n < c:
+        n += 1
+    up = y <= n * n < (1 + DELTA) ** 2 * y
+    down = n >= 1 and (1 - DELTA) ** 2 * y <= (n - 1) ** 2 < y
+    return n, (up or down)
+
+
+def ceil_bands(case):
+    """names of the math.ceil calls reached by this request whose exact argument lies in its band
+    (an independent exact evaluation of the arguments, not the model)"""
+    a = case['args']
+    given = [k for k in ('area', 'flat_area', 'amplitude') if a[k] is not None]
+    if len(given) != 1 or case['channel'] not in ('x', 'y', 'z'):
+        return []
+    o = make_opts(case['sys'])
+    G = F(a['max_grad']) if a['max_grad'] is not None else F(o.max_grad)
+    S = F(a['max_slew']) if a['max_slew'] is not None else F(o.max_slew)
+    R = F(o.grad_raster_time)
+    if G <= 0 or S <= 0 or R <= 0:
+        return []
+    r0 = a['rise_time'] or a['fall_time']
+    hits = []
+    if given[0] == 'area':
+        if a['flat_time'] is not None or (a['duration'] is not None and r0 is not None):
+            return []
+        A = abs(F(a['area']))
+        n1, b1 = band_sqrt(A / S / (R * R))
+        if b1:
+            hits.append('sqrt')
+        rise1 = max(n1, 1) * R
+        if A / rise1 > G + Fraction(1, 10 ** 9):
+            n2, b2 = band_plain(A / G / R)
+            if b2:
+                hits.append('effective_time')
+            if n2 > 0:
+                _, b3 = band_plain(A / (n2 * R) / S / R)
+                if b3:
+                    hits.append('plateau_rise')
+    elif given[0] == 'amplitude':
+        if r0 is None:
+            _, b = band_plain(abs(F(a['amplitude'])) / S / R)
+            if b:
+                hits.append('amplitude_rise')
+    else:
+        if r0 is None and a['flat_time']:
+            amp = abs(F(a['flat_area']) / F(a['flat_time']))
+            _, b = band_plain(max(amp / S, R) / R)
+            if b:
+                hits.append('flat_area_rise')
+    return hits
+
+
+# ------------------------------------------------------------------------------------------------
 # model
 def model_line(case):
     a = case['args']
@@ -784,8 +903,9 @@ def parse_model(line):
 
 
 def compare(ctx, case, impl, model, oracle_fails):
-    """model vs implementation; a one-raster difference of a chosen ramp caused by binary64 rounding in front
-    of math.ceil is benign only if the implementation's event satisfies the oracle"""
+    """model vs implementation; a one-raster difference of a chosen timing is benign only if the exact argument of a
+    math.ceil reached by the call lies in its binary64 band (theorems ceil_robust_band, ceil_sqrt_div_robust_band)
+    AND the implementation's event satisfies the oracle"""
     if impl[0] != model[0]:
         ctx.mismatch('make', case, {'impl': impl[0] + ' ' + (impl[1] if impl[0] == 'ERR' else ''),
                                     'model': model[0] + ' ' + (model[1] if model[0] == 'ERR' else '')})
@@ -801,13 +921,21 @@ def compare(ctx, case, impl, model, oracle_fails):
     if not diffs:
         return
     R = F(make_opts(case['sys']).grad_raster_time)
-    step = abs(impl[1][1] - model[1][1]) / R
-    one_raster = close(step, Fraction(1), 1, rel=Fraction(1, 10 ** 6))
-    if one_raster and not oracle_fails:
-        ctx.benign_divergence('make', case, {'diffs': diffs, 'why': 'ceil of a float quotient within 1 ulp of an integer'})
+    one = R * (1 + Fraction(1, 10 ** 6))
+    d_rise = abs(impl[1][1] - model[1][1])
+    d_fall = abs(impl[1][3] - model[1][3])
+    d_tot = abs(sum(impl[1][1:4]) - sum(model[1][1:4]))
+    raster_step = d_rise <= one and d_fall <= one and d_tot <= 2 * one
+    bands = ceil_bands(case)
+    if bands and raster_step and not oracle_fails:
+        # admissible by ceil_robust_band / ceil_sqrt_div_robust_band, and the event still satisfies the property
+        ctx.benign_divergence('make', case, {'diffs': diffs, 'bands': bands,
+                                             'why': 'exact argument of math.ceil within its binary64 band'})
         ctx.count('corr.benign_ceil_flip')
+        if not case['kind'].startswith('band'):
+            ctx.count('corr.benign_ceil_flip_outside_band_stream')
     else:
-        ctx.mismatch('make', case, {'diffs': diffs})
+        ctx.mismatch('make', case, {'diffs': diffs, 'bands': bands})
 
 
 def process(ctx, cases):
@@ -823,8 +951,11 @@ def process(ctx, cases):
         key = (c['channel'], tuple(sorted(c['sys'].items())), tuple(sorted((k, v) for k, v in c['args'].items())))
         nontrivial = r[0] == 'OK' or r[1] not in PRESENCE_CLASSES
         ctx.evaluated(key, nontrivial=nontrivial)
-        ctx.count('kind.' + c['kind'].split('.')[0] + ('.' + c['kind'].split('.')[1] if c['kind'].startswith(('inv', 'thr')) else ''))
+        ctx.count('kind.' + c['kind'].split('.')[0] + ('.' + c['kind'].split('.')[1] if c['kind'].startswith(('inv', 'thr', 'band')) else ''))
         ctx.count('result.' + ('OK' if r[0] == 'OK' else 'ERR.' + r[1].split(':')[0]))
+        for b in ceil_bands(c):
+            ctx.count('band.' + b)
+            ctx.count('band.cases.' + ('band_stream' if c['kind'].startswith('band') else 'other_streams'))
         if r[0] == 'OK':
             ctx.count('raster.%gus' % (c['sys']['raster'] * 1e6))
             ctx.count('units.%s|%s' % (c['sys']['grad_unit'], c['sys']['slew_unit']))
@@ -849,7 +980,7 @@ def process(ctx, cases):
 def run(ctx):
     n = {'quick': 6000, 'thorough': 300000}[ctx.tier]
     process(ctx, corpus())
-    rv, ri, rt = ctx.rng('valid'), ctx.rng('invalid'), ctx.rng('threshold')
+    rv, ri, rt, rb = ctx.rng('valid'), ctx.rng('invalid'), ctx.rng('threshold'), ctx.rng('band')
     done = 0
     batch = 1000
     while done < n:
@@ -859,20 +990,25 @@ def run(ctx):
         cases = []
         for i in range(batch):
             u = (done + i) % 20
-            if u < 14:
+            if u < 13:
                 cases.append(gen_valid(rv))
-            elif u < 18:
+            elif u < 17:
                 cases.append(gen_invalid(ri))
-            else:
+            elif u < 19:
                 cases.append(gen_threshold(rt))
+            else:
+                cases.append(gen_band(rb))
         impls = process(ctx, cases)
         if done == 0:
             for c, r in zip(cases[:40:10], impls[:40:10]):
                 ctx.sample({'case': c, 'result': r[0], 'fields_or_class': [float(v) for v in r[1]] if r[0] == 'OK' else r[1]})
         done += batch
-    if ctx.model_cases and len(ctx.benign) > BENIGN_BUDGET * ctx.model_cases + 2:
-        ctx.mismatch('make', {'note': 'benign-divergence budget exceeded'},
-                     {'benign': len(ctx.benign), 'model_cases': ctx.model_cases})
+    # divergences inside the dedicated band stream are justified case by case by the band theorems; elsewhere
+    # (random values) they must stay rare
+    outside = ctx.dist.get('corr.benign_ceil_flip_outside_band_stream', 0)
+    if ctx.model_cases and outside > BENIGN_BUDGET * ctx.model_cases + 2:
+        ctx.mismatch('make', {'note': 'benign-divergence budget exceeded outside the band stream'},
+                     {'benign_outside_band_stream': outside, 'model_cases': ctx.model_cases})
 
 
 def replay(ctx, case):
